@@ -76,7 +76,10 @@ TReturn ==
 
 TRaise == IsEvent("raise") /\ CallRaise
 
-TMatch == TCall \/ TPrep \/ TAnswer \/ TReturn \/ TRaise
+(* a fresh operator instance per call, of the class the configuration prescribes *)
+TInstance == IsEvent("instance") /\ pc = "prep" /\ Cur.cls = ClassFor(Cur.system, Cur.backend) /\ UNCHANGED mvars
+
+TMatch == TCall \/ TInstance \/ TPrep \/ TAnswer \/ TReturn \/ TRaise
 
 Reject ==
     /\ t > 0 /\ l <= Len(Ev) /\ ~ENABLED TMatch
